@@ -6,7 +6,8 @@
    $output_rails_in_progress when the output rails fail, whether errors raised while an action event
    is created are contained.  If the source loses one of these the `eq_refl` below stops checking. *)
 From Coq Require Import String List Bool Arith.
-From NG Require Import Gen.C03Consts Pipe.Faults Pipe.Faults_proofs.
+From NG Require Import Gen.C03Consts Pipe.Faults Pipe.Faults_proofs
+                       Pipe.FlowCheck Pipe.OptGuards Pipe.SelfCheck_proofs Gen.C01Flows Gen.C03Guards.
 Import ListNotations.
 Open Scope string_scope.
 Open Scope list_scope.
@@ -127,3 +128,47 @@ Theorem C03_v2_dialog_fault_refuted :
             1 = Some (mkObs (TReply []) [] 0).
 Proof. exact v2_dialog_witness. Qed.
 Print Assumptions C03_v2_dialog_fault_refuted.
+
+(* ------------------------------------------------------------------------------------------
+   (T) the SHIPPED self-check rails (library/self_check/*/flows.v1.co and flows.co, as the
+   repository's parsers read them today: Gen/C01Flows.v; guards parsed into expression trees:
+   Gen/C03Guards.v) treat a None / falsy $allowed as a rejection.  The guard right after the action
+   re-prints to the string in the flow, is TRUE for None, False and an empty list and FALSE for True,
+   for both settings of enable_rails_exceptions - `if $allowed == False` would not check. *)
+Theorem C03_shipped_rails_reject_falsy :
+  rejects_falsy (v1_verdict_guard v1_self_check_input) = true /\
+  rejects_falsy (v1_verdict_guard v1_self_check_output) = true /\
+  rejects_falsy (v2_verdict_guard v2lib_self_check_input) = true /\
+  rejects_falsy (v2_verdict_guard v2lib_self_check_output) = true.
+Proof. exact shipped_rails_reject_falsy. Qed.
+Print Assumptions C03_shipped_rails_reject_falsy.
+
+Theorem C03_rejects_falsy_meaning :
+  forall s, rejects_falsy (Some s) = true ->
+    exists e, lookup_guard s c03_guard_table = Some e /\ s = show e /\
+              forall exc, holds (sc_env VNone exc) e = Some true /\ holds (sc_env (VBool false) exc) e = Some true /\
+                          holds (sc_env (VBool true) exc) e = Some false.
+Proof. exact rejects_falsy_spec. Qed.
+Print Assumptions C03_rejects_falsy_meaning.
+
+(* Colang 1.0: with a falsy $allowed the rail says `bot refuse to respond` and stops (raises the
+   rail exception and stops, when exceptions are enabled); with True it does nothing more *)
+Theorem C03_v1_self_check_behaviour :
+  (forall v, In v falsy_values ->
+     option_map (trace_beq [EAction "self_check_input" "allowed"; EUtter "refuse to respond"; EUtter "stop"])
+                (run_sc v1_self_check_input v false) = Some true /\
+     option_map (trace_beq [EAction "self_check_output" "allowed"; EUtter "refuse to respond"; EUtter "stop"])
+                (run_sc v1_self_check_output v false) = Some true /\
+     option_map (existsb (is_utter "stop")) (run_sc v1_self_check_input v true) = Some true /\
+     option_map (existsb (is_utter "stop")) (run_sc v1_self_check_output v true) = Some true) /\
+  (forall exc, option_map (trace_beq [EAction "self_check_input" "allowed"]) (run_sc v1_self_check_input (VBool true) exc) = Some true /\
+               option_map (trace_beq [EAction "self_check_output" "allowed"]) (run_sc v1_self_check_output (VBool true) exc) = Some true).
+Proof. exact v1_self_check_behaviour. Qed.
+Print Assumptions C03_v1_self_check_behaviour.
+
+(* Colang 2.x: whenever the verdict guard holds, the rail aborts (never finishes normally) *)
+Theorem C03_v2_self_check_aborts_on_reject :
+  match v2_verdict_guard v2lib_self_check_input with Some s => v2_reject_aborts v2lib_self_check_input s | None => false end = true /\
+  match v2_verdict_guard v2lib_self_check_output with Some s => v2_reject_aborts v2lib_self_check_output s | None => false end = true.
+Proof. exact v2_self_check_aborts_on_reject. Qed.
+Print Assumptions C03_v2_self_check_aborts_on_reject.
